@@ -123,9 +123,17 @@ def check_groups(ctx: Ctx, groups: list[dict], rng: random.Random, powers: list[
     def power_fn(adv, enf):
         return g.boundary_powers(rng, anchors_of(adv, enf), k=18)
 
-    impl = g.run_c17_impl(bats, invs, g.group_edges(groups), powers if powers is not None else power_fn, run_manager=run_mgr)
-    case = {"groups": groups, "powers": impl.pop("powers")}
     domain = run_mgr and g.is_complete(groups) and g.is_consistent(groups)
+    try:
+        impl = g.run_c17_impl(bats, invs, g.group_edges(groups), powers if powers is not None else power_fn, run_manager=run_mgr)
+    except Exception as e:  # pylint: disable=broad-except  # the real code raised: an observation, not a harness failure
+        case = {"groups": groups, "powers": powers or []}
+        impl = {"raised": type(e).__name__}
+        if domain:
+            ctx.violation("raised", case, {"error": f"{type(e).__name__}: {e}"[:300]})
+        ctx.case(case, tags=["real-code-raised"], nontrivial=False)
+        return case, impl
+    case = {"groups": groups, "powers": impl.pop("powers")}
     if ctx.evaluations % 8 == 0:
         # float-vs-exact sweep: the same case on IEEE doubles; bounds must agree, verdicts are compared as a measure
         with g.float_pass():
@@ -210,7 +218,7 @@ def run_case_json(ctx: Ctx, case: dict, rng: random.Random, cases: list, outs: l
 def run(ctx: Ctx) -> None:
     python_flags()
     ctx.rule = RULE
-    n = ctx.budget(1500, 40000)
+    n = ctx.budget(1500, 30000)
     cases: list[dict] = []
     outs: list[dict] = []
     for c in load_corpus():
@@ -228,6 +236,27 @@ def run(ctx: Ctx) -> None:
         c, o = check_groups(ctx, groups, rng)
         cases.append(c)
         outs.append(o)
+    if ctx.tier == "thorough":
+        # bounded-exhaustive small scope: two 1:1 battery sets, every combination of exclusion / inclusion bounds from a
+        # small lattice on the battery and on the inverter (symmetric lower bounds), powers on/next to every bound
+        lat = [(eu, iu) for eu in ("0", "10", "30") for iu in ("40", "100")]
+        k = 0
+        for b1 in lat:
+            for i1 in lat:
+                for b2 in lat:
+                    for i2 in lat:
+                        def comp(x):
+                            return {"il": "-" + x[1], "el": "-" + x[0] if x[0] != "0" else "0", "eu": x[0], "iu": x[1]}
+                        groups = [
+                            {"bats": [{"id": 11, "working": True, "has": True, "soc_ok": True, **comp(b1)}],
+                             "invs": [{"id": 101, "has": True, **comp(i1)}]},
+                            {"bats": [{"id": 12, "working": True, "has": True, "soc_ok": True, **comp(b2)}],
+                             "invs": [{"id": 102, "has": True, **comp(i2)}]}]
+                        c, o = check_groups(ctx, groups, ctx.subrng("exh", k))
+                        k += 1
+                        cases.append(c)
+                        outs.append(o)
+        ctx.extra["bounded_exhaustive_cases"] = k
     ctx.compare("PoolBounds", cases, outs, what="advertised / enforced bounds, request answers, min powers")
 
 
